@@ -270,13 +270,13 @@ Section P.
       exact obj v (spec_enc v).
 
     Definition body_exact (t : ty) : Prop := forall v,
-      (noobj t = true \/ Q) -> wfz t = true -> refl_domain t = true ->
+      (noobj t = true \/ Q) -> refl_domain t = true ->
       has_ty v t = true -> lens_ok v = true -> keys_nodup v ->
       exact (refl_body c tval_eqb obj t) v (spec_enc v).
 
     Lemma body_exact_TS : forall s, body_exact (TS s).
     Proof.
-      intros s v HQ Hz Hdom Hty Hlen Hkey rest.
+      intros s v HQ Hdom Hty Hlen Hkey rest.
       destruct v as [w b|b|s0|l|kvs|l|t0 v0].
       - apply has_ty_VNum in Hty as [s' [Es [Hw Hb]]]. injection Es as <-.
         destruct s; cbn [scalar_width] in Hw; try discriminate Hw; injection Hw as <-;
@@ -297,31 +297,28 @@ Section P.
 
     Lemma body_exact_TList : forall t', body_exact t' -> body_exact (TList t').
     Proof.
-      intros t' IH v HQ Hz Hdom Hty Hlen Hkey rest.
+      intros t' IH v HQ Hdom Hty Hlen Hkey rest.
       apply has_ty_TList_inv in Hty as [l [Ev [_ Hall]]]. subst v.
-      cbn [noobj] in HQ. cbn [wfz] in Hz. apply andb_true_iff in Hz as [Hmw Hz]. apply Nat.leb_le in Hmw.
+      cbn [noobj] in HQ.
       cbn [refl_domain] in Hdom. cbn [lens_ok] in Hlen. apply andb_true_iff in Hlen as [Hn Hlen].
       apply N.leb_le in Hn. apply keys_nodup_VList in Hkey.
       rewrite forallb_forall in Hlen. rewrite Forall_forall in Hall, Hkey.
       cbn [refl_body spec_enc]. rewrite <- app_assoc.
       rewrite read_u32_enc by (unfold listValueMaxSize in Hn; lia). cbn [bind]. cbv zeta.
       destruct (as_int32_small _ Hn) as [E1 E2]. rewrite E1, E2.
-      rewrite (rep_exact spec_enc (refl_body c tval_eqb obj t') l _ eq_refl); [reflexivity|].
-      apply Forall_forall. intros x Hx. split.
-      - apply IH; auto.
-      - pose proof (min_width_le_len x t' (Hall x Hx)) as Hmin. lia.
+      rewrite (rep_exact spec_enc (refl_body c tval_eqb obj t') l _ eq_refl);
+        [reflexivity| |apply (uniform_elems t' l); apply Forall_forall; exact Hall].
+      apply Forall_forall. intros x Hx. apply IH; auto.
     Qed.
 
     Lemma body_exact_TMap : forall tk tv, body_exact tk -> body_exact tv -> body_exact (TMap tk tv).
     Proof.
-      intros tk tv IHk IHv v HQ Hz Hdom Hty Hlen Hkey rest.
+      intros tk tv IHk IHv v HQ Hdom Hty Hlen Hkey rest.
       apply has_ty_TMap_inv in Hty as [kvs [Ev [_ Hall]]]. subst v.
       assert (HQk : noobj tk = true \/ Q)
         by (destruct HQ as [HQ|HQ]; [cbn [noobj] in HQ; apply andb_true_iff in HQ as [HQ _]; now left|now right]).
       assert (HQv : noobj tv = true \/ Q)
         by (destruct HQ as [HQ|HQ]; [cbn [noobj] in HQ; apply andb_true_iff in HQ as [_ HQ]; now left|now right]).
-      cbn [wfz] in Hz. apply andb_true_iff in Hz as [Hz Hzv]. apply andb_true_iff in Hz as [Hmw Hzk].
-      apply Nat.leb_le in Hmw.
       cbn [refl_domain] in Hdom. apply andb_true_iff in Hdom as [Hdk Hdv].
       cbn [lens_ok] in Hlen. apply andb_true_iff in Hlen as [Hn Hlen].
       apply N.leb_le in Hn. apply keys_nodup_VMap in Hkey as [Hnd Hkey].
@@ -335,18 +332,16 @@ Section P.
       - apply Forall_forall. intros [k x] Hkv. cbn [fst snd].
         destruct (Hall _ Hkv) as [Htk Htv]. destruct (Hkey _ Hkv) as [Hkk Hkx]. cbn [fst snd] in Htk, Htv, Hkk, Hkx.
         pose proof (Hlen _ Hkv) as Hl. cbn [fst snd] in Hl. apply andb_true_iff in Hl as [Hlk Hlx].
-        split.
-        + apply pair_with_exact; [apply IHk|apply IHv]; auto.
-        + pose proof (min_width_le_len k tk Htk) as Hmk. pose proof (min_width_le_len x tv Htv) as Hmx.
-          rewrite app_length. lia.
+        apply pair_with_exact; [apply IHk|apply IHv]; auto.
+      - apply (uniform_entries tk tv kvs). apply Forall_forall. exact Hall.
     Qed.
 
     Lemma body_exact_TTuple : forall ts, Forall body_exact ts -> body_exact (TTuple ts).
     Proof.
-      intros ts IH v HQ Hz Hdom Hty Hlen Hkey rest.
+      intros ts IH v HQ Hdom Hty Hlen Hkey rest.
       apply has_ty_TTuple_inv in Hty as [l [Ev Hall]]. subst v.
-      cbn [wfz] in Hz. cbn [refl_domain] in Hdom. cbn [lens_ok] in Hlen. apply keys_nodup_VTup in Hkey.
-      rewrite forallb_forall in Hz, Hdom, Hlen. rewrite Forall_forall in IH, Hkey.
+      cbn [refl_domain] in Hdom. cbn [lens_ok] in Hlen. apply keys_nodup_VTup in Hkey.
+      rewrite forallb_forall in Hdom, Hlen. rewrite Forall_forall in IH, Hkey.
       cbn [refl_body spec_enc].
       rewrite (fields_with_exact (map (fun t' => (refl_body c tval_eqb obj t', zero_val t')) ts) l); [reflexivity|].
       apply (Forall2_flip_map (fun x t => has_ty x t = true)); [exact Hall|].
@@ -356,10 +351,10 @@ Section P.
 
     Lemma body_exact_TStruct : forall n fs, Forall (fun f => body_exact (snd f)) fs -> body_exact (TStruct n fs).
     Proof.
-      intros n fs IH v HQ Hz Hdom Hty Hlen Hkey rest.
+      intros n fs IH v HQ Hdom Hty Hlen Hkey rest.
       apply has_ty_TStruct_inv in Hty as [l [Ev Hall]]. subst v.
-      cbn [wfz] in Hz. cbn [refl_domain] in Hdom. cbn [lens_ok] in Hlen. apply keys_nodup_VTup in Hkey.
-      rewrite forallb_forall in Hz, Hdom, Hlen. rewrite Forall_forall in IH, Hkey.
+      cbn [refl_domain] in Hdom. cbn [lens_ok] in Hlen. apply keys_nodup_VTup in Hkey.
+      rewrite forallb_forall in Hdom, Hlen. rewrite Forall_forall in IH, Hkey.
       cbn [refl_body spec_enc].
       rewrite (fields_with_exact (map (fun f => (refl_body c tval_eqb obj (snd f), zero_val (snd f))) fs) l); [reflexivity|].
       apply (Forall2_flip_map (fun x f => has_ty x (snd f) = true)); [exact Hall|].
@@ -384,17 +379,17 @@ Section P.
   Proof.
     intros Hd8 v Hty Hlen Hkey.
     apply (refl_body_exact no_dyn False Hd8 (fun F : False => False_ind _ F));
-      [left; reflexivity|apply wfz_ObjectReference|reflexivity|exact Hty|exact Hlen|exact Hkey].
+      [left; reflexivity|reflexivity|exact Hty|exact Hlen|exact Hkey].
   Qed.
 
   Theorem refl_dec_spec : forall v t rest,
     refl_drop8 c = false ->
-    good_ty t = true -> has_ty v t = true -> refl_domain t = true -> lens_ok v = true -> keys_nodup v ->
+    wf_ty t = true -> has_ty v t = true -> refl_domain t = true -> lens_ok v = true -> keys_nodup v ->
     refl_dec c tval_eqb t (spec_enc v ++ rest) = ROk (v, rest).
   Proof.
     intros v t rest Hd8 Hgood Hty Hdom Hlen Hkey. unfold refl_dec.
     apply (refl_body_exact (refl_body c tval_eqb no_dyn ty_ObjectReference) True Hd8 (fun _ => refl_obj_exact Hd8));
-      [right; exact I|now apply good_ty_wfz|exact Hdom|exact Hty|exact Hlen|exact Hkey].
+      [right; exact I|exact Hdom|exact Hty|exact Hlen|exact Hkey].
   Qed.
 
   (* ---------- refutation: with the 8-bit cases missing the encoder loses the field ---------- *)
